@@ -222,6 +222,31 @@ func c11(c *Ctx) {
 			return
 		}
 		c.SawFunc(FuncName(dm))
+		// the two maps built by DispatchMetricMap, identified by what is done with them: the one handed to
+		// the next handler and the one sent to the Run goroutine
+		var fwdMap, parkMap ssa.Value
+		for _, cl := range callsIn(dm) {
+			if cl.Common().IsInvoke() && cl.Common().Method.Name() == "DispatchMetricMap" {
+				fwdMap = ptrOrigin(cl.Common().Args[1])
+			}
+		}
+		eachInstr(dm, func(in ssa.Instruction) {
+			if sel, ok := in.(*ssa.Select); ok {
+				for _, st := range sel.States {
+					if st.Dir == types.SendOnly && strings.HasSuffix(pathOf(st.Chan), ".incomingMetrics") {
+						parkMap = ptrOrigin(st.Send)
+					}
+				}
+			}
+		})
+		isNew := func(v ssa.Value) bool {
+			cl, ok := v.(*ssa.Call)
+			return ok && isCall(cl, "gostatsd.NewMetricMap")
+		}
+		if !r.Check("route:two-maps", fwdMap != nil && parkMap != nil && fwdMap != parkMap && isNew(fwdMap) && isNew(parkMap), dm.Pos(), "the forwarded map and the parked map are two new MetricMaps") {
+			return
+		}
+		is := func(v, m ssa.Value) bool { return ptrOrigin(v) == m }
 		cls := eachClosures(dm)
 		for _, F := range mmFields {
 			cl := cls[F]
@@ -257,9 +282,9 @@ func c11(c *Ctx) {
 				}
 				if hit {
 					kc, isC := a[2].(*ssa.Call)
-					r.Check("route:"+F+":hit", dest == "mmToDispatch" && isC && isCall(kc, "gostatsd.FormatTagsKey"), cc.Pos(), fmt.Sprintf("cache hit: into %s under %s", dest, pathOf(a[2])))
+					r.Check("route:"+F+":hit", is(a[0], fwdMap) && isC && isCall(kc, "gostatsd.FormatTagsKey"), cc.Pos(), fmt.Sprintf("cache hit: into %s under %s", dest, pathOf(a[2])))
 				} else {
-					r.Check("route:"+F+":miss", dest == "mmToHandle" && paramIndex(cl, a[2]) == 1, cc.Pos(), fmt.Sprintf("cache miss: into %s under %s", dest, pathOf(a[2])))
+					r.Check("route:"+F+":miss", is(a[0], parkMap) && paramIndex(cl, a[2]) == 1, cc.Pos(), fmt.Sprintf("cache miss: into %s under %s", dest, pathOf(a[2])))
 				}
 				r.Check("route:"+F+":name", paramIndex(cl, a[1]) == 0, cc.Pos(), "metric name unchanged")
 			}
@@ -267,11 +292,11 @@ func c11(c *Ctx) {
 		// forwarded iff non-empty, parked iff non-empty
 		for _, cl := range callsIn(dm) {
 			if cl.Common().IsInvoke() && cl.Common().Method.Name() == "DispatchMetricMap" {
-				ok := valueName(cl.Common().Args[1]) == "mmToDispatch"
+				ok := true
 				g := false
 				for _, cd := range condsFor(cl.Block()) {
 					cd = normCond(cd)
-					if ic, isC := cd.V.(*ssa.Call); isC && isCall(ic, "(*gostatsd.MetricMap).IsEmpty") && !cd.Sense && valueName(ic.Call.Args[0]) == "mmToDispatch" {
+					if ic, isC := cd.V.(*ssa.Call); isC && isCall(ic, "(*gostatsd.MetricMap).IsEmpty") && !cd.Sense && is(ic.Call.Args[0], fwdMap) {
 						g = true
 					}
 				}
@@ -287,11 +312,11 @@ func c11(c *Ctx) {
 						g := false
 						for _, cd := range condsFor(sel.Block()) {
 							cd = normCond(cd)
-							if ic, isC := cd.V.(*ssa.Call); isC && isCall(ic, "(*gostatsd.MetricMap).IsEmpty") && !cd.Sense && valueName(ic.Call.Args[0]) == "mmToHandle" {
+							if ic, isC := cd.V.(*ssa.Call); isC && isCall(ic, "(*gostatsd.MetricMap).IsEmpty") && !cd.Sense && is(ic.Call.Args[0], parkMap) {
 								g = true
 							}
 						}
-						r.Check("park:non-empty", g && valueName(st.Send) == "mmToHandle" && strings.HasSuffix(pathOf(st.Chan), ".incomingMetrics"), sel.Pos(), "mmToHandle is sent to the Run goroutine when it is not empty")
+						r.Check("park:non-empty", g && is(st.Send, parkMap) && strings.HasSuffix(pathOf(st.Chan), ".incomingMetrics"), sel.Pos(), "mmToHandle is sent to the Run goroutine when it is not empty")
 					}
 				}
 			}
@@ -387,9 +412,12 @@ func c11(c *Ctx) {
 			return ok && cl.Common().IsInvoke() && cl.Common().Method.Name() == "DispatchMetricMap"
 		})
 		r.Check("updateAndDispatchMetrics:forwards-once", m == 2, um.Pos(), "forwards over all paths = "+maskString(m))
+		var rebuilt ssa.Value
 		for _, cl := range callsIn(um) {
 			if cl.Common().IsInvoke() && cl.Common().Method.Name() == "DispatchMetricMap" {
-				r.Check("updateAndDispatchMetrics:forwards-mmOut", valueName(cl.Common().Args[1]) == "mmOut", cl.Pos(), "the rebuilt map is forwarded")
+				rebuilt = ptrOrigin(cl.Common().Args[1])
+				nc, isNew := rebuilt.(*ssa.Call)
+				r.Check("updateAndDispatchMetrics:forwards-mmOut", isNew && isCall(nc, "gostatsd.NewMetricMap"), cl.Pos(), "the rebuilt map (a new MetricMap) is forwarded")
 			}
 		}
 		// each closure: updateInplace then Merge<T> into mmOut under the re-formatted key, exactly once
@@ -403,7 +431,7 @@ func c11(c *Ctx) {
 			}
 			m := countOnPaths(cl, func(in ssa.Instruction) bool {
 				cc, ok := in.(ssa.CallInstruction)
-				return ok && staticCallee(cc) != nil && staticCallee(cc).Name() == "Merge"+T && valueName(cc.Common().Args[0]) == "mmOut"
+				return ok && staticCallee(cc) != nil && staticCallee(cc).Name() == "Merge"+T && rebuilt != nil && ptrOrigin(cc.Common().Args[0]) == rebuilt
 			})
 			r.Check("updateAndDispatchMetrics:"+F+":merged-once", m == 2, cl.Pos(), "Merge"+T+" into mmOut over all paths = "+maskString(m))
 			var upd, mrg ssa.CallInstruction
